@@ -202,6 +202,7 @@ type Sched struct {
 	envChain  uint64
 	envParent *Thread
 	ChanLog   []ChanEvent
+	atomics   map[uintptr]*Obj
 	Data      any // driver-owned
 }
 
@@ -878,6 +879,19 @@ func SetNativeNumCPU(n int) { nativeNumCPU.Store(int64(n)) }
 // HarnessFail reports a bug in the harness itself (never a VIOLATION).
 func HarnessFail(format string, args ...any) {
 	panic(harnessError(fmt.Sprintf(format, args...)))
+}
+
+// ObjAt returns the fingerprint object of an atomic variable at addr.
+func (s *Sched) ObjAt(addr uintptr) *Obj {
+	if s.atomics == nil {
+		s.atomics = map[uintptr]*Obj{}
+	}
+	o := s.atomics[addr]
+	if o == nil {
+		o = &Obj{}
+		s.atomics[addr] = o
+	}
+	return o
 }
 
 // ---- timers (used by the vtime shim) ---------------------------------------
